@@ -159,7 +159,8 @@ def check(case):
             return out
         lo, hi = min(ctrl), max(ctrl)
         if tag == 'power':
-            if np.any(prof <= 0) or np.any(prof > hi * (1 + 1e-9)):
+            # mathematically positive; a steep law legitimately underflows to exactly 0.0 high up
+            if np.any(prof < 0) or np.any(prof > hi * (1 + 1e-9)):
                 out.fail('gas-profile@power,range', 'range [%r,%r] deep value %r' % (prof.min(), prof.max(), hi))
         elif np.any(prof < lo * (1 - 1e-9)) or np.any(prof > hi * (1 + 1e-9)):
             out.fail('gas-profile@%s,range' % tag, 'range [%r,%r] controls [%r,%r]' % (prof.min(), prof.max(), lo, hi))
